@@ -492,3 +492,23 @@ Proof. unfold get, be_get. destruct be; cbn; lia. Qed.
 
 Lemma fit_exact n b : len b = n -> fit n b = b.
 Proof. intro H. rewrite fit_small by lia. rewrite H, N.sub_diag. apply app_nil_r. Qed.
+
+Lemma sub_flds be fs off n b :
+  fld_at fs off = Some (FB n b) -> off + n <= flds_len fs ->
+  sub (enc_flds be fs) off n = fit n b.
+Proof.
+  intros H Hl. rewrite sub_eq_read_of by (now rewrite len_enc_flds).
+  rewrite <- (app_nil_r (enc_flds be fs)).
+  exact (read_fld be fs [] off (FB n b) H).
+Qed.
+
+Lemma bytes_eqb_refl_gen (eqb : bytes -> bytes -> bool) :
+  (forall a b, eqb a b = Nat.eqb (length a) (length b) && forallb (fun p => fst p =? snd p) (combine a b)) ->
+  forall a, eqb a a = true.
+Proof.
+  intros H a. rewrite H, Nat.eqb_refl. cbn [andb].
+  induction a as [| x t IH]; [reflexivity |]. cbn [combine forallb fst snd]. now rewrite N.eqb_refl.
+Qed.
+
+Lemma read_of_skip_add a f o n : read_of (a ++ f) (len a + o) n = read_of f o n.
+Proof. rewrite read_of_skip by lia. f_equal. lia. Qed.
